@@ -307,6 +307,8 @@ func c17Observe(s *c17State, res *engine.Result, ctx string) {
 	if s.wit != nil {
 		if wb := s.wit.Bytes(); !bytes.Equal(wb, s.witBytes) || len(s.wit.Packets()) != 2 {
 			res.Failf("witness|Accumulator|changed-by-calls-on-another-accumulator", "an independent accumulator changed (%d -> %d bytes, %d packets)", len(s.witBytes), len(wb), len(s.wit.Packets()))
+		} else if wp := s.wit.Packets(); wp[0] == nil || wp[1] == nil || *wp[0] != packet.Packet(c17Alphabet[1].raw) || *wp[1] != packet.Packet(c17Alphabet[5].raw) {
+			res.Failf("witness|Accumulator|packets-changed-by-calls-on-another-accumulator", "the packet list of an independent accumulator no longer holds the two packets written to it")
 		}
 	}
 	if s.held != nil {
